@@ -290,8 +290,15 @@ class OpaqueSignature(Signature):
     def __sig__(self):
         return self.data
 
+    def __copy__(self):
+        sig = super(OpaqueSignature, self).__copy__()
+        sig.data = copy.copy(self.data)
+        return sig
+
     def parse(self, packet):
-        self.data = packet
+        # everything that is handed over (the caller knows where the packet ends), and it is consumed
+        self.data = bytearray(packet)
+        del packet[:]
 
     def from_signer(self, sig):
         self.data = bytearray(sig)
